@@ -1,23 +1,39 @@
 N = {"quick": 400, "thorough": 12000}
 EXHAUSTIVE = {"quick": False, "thorough": True}
-RULE = ("one fixed boundary case (equal values, one step either side of a limit, NaN limits/inputs, zero and negative reference values, "
-        "overflow of an intermediate and of the final product at 2^95 / 2^96-1, empty and duplicated request lists) + random cases of 3-10 "
+RULE = ("one fixed boundary case (equal values, one step either side of a limit, NaN / +-inf / -0.0 limits and inputs, zero and negative reference "
+        "values, overflow of an intermediate and of the final product at 2^95 / 2^96-1, the rounding witnesses of rust_decimal's multiplication "
+        "[round-then-overflow MAX x 0.5 x 2, underflow to zero 1e-28 x 1e-28, rounding into range, ties to even], empty and duplicated request "
+        "lists) + the committed corpus/C03R/edge.ops + random cases of 3-10 "
         "(thorough 3-16) independent ops over {chk dec|int|f64, notional, notionalk spot|perp|fut|opt, apd, delta, rm, appr, refuse, refuses}: "
         "decimals from an 18-value pool or random with <= 5 digits and scale <= 4, inputs of a check biased to the limit itself and one unit "
-        "of the last place either side, 15-25 % of the arithmetic ops on 29-digit integers / powers of ten to exercise overflow, request lists "
+        "of the last place either side, 15-25 % of the arithmetic ops on 29-digit integers / powers of ten to exercise overflow, 15 % of the "
+        "notional / delta ops on decimals of the WHOLE Decimal range (mantissa up to 96 bits from an edge pool or random, scale 0..28) so that "
+        "products round, underflow to zero and overflow after rounding (compared exactly: the model rounds as rust_decimal does), request lists "
         "of length <= 6 (12) over few distinct requests with adjacent duplicates; every op calls the real function of barter::risk in-process. "
-        "thorough additionally enumerates chk dec / apd over a 7x7 grid, chk f64 over 5x5 (with NaN), chk int over 7x7, notional and delta over "
-        "a 7^3 grid (incl. 2^95 and 2^96-1) and DefaultRiskManager::check over every pair of request lists of length <= 2. A case is distinct by "
-        "the SHA-1 of its op lines and non-trivial when two of its ops produce different observations")
+        "thorough additionally enumerates chk dec / apd over a 7x7 grid, chk f64 over 8x8 (with NaN, +-inf, -0.0), chk int over 7x7, notional and delta over "
+        "the full 7^3 grid (incl. 2^95 and 2^96-1 meeting 0.5) and DefaultRiskManager::check over every pair of request lists of length <= 2. A case is distinct by "
+        "the SHA-1 of its op lines and non-trivial when two of its ops produce different observations. The oracle (spec mode) speaks on notional / "
+        "delta only where the theorems determine the answer from the inputs: the exact product where every intermediate product is exactly "
+        "representable, none / panic where a product of exactly known operands is >= 2^96; it is silent where a product is rounded")
 ASSUMPTIONS = [
-    "Decimal is modelled as an exact rational; overflow is the predicate |r| <= 2^96-1 applied to the exact result (theorems hold for an arbitrary "
-    "representability predicate `fits`); rounding of results with more than 28 fractional digits is not modelled: generated factors are either "
-    "small (<= 5 digits, scale <= 4) or integers / powers of ten, so + - x are exact, and division results are compared to 1e-18",
+    "Decimal is modelled as a rational. Multiplication (calculate_quote_notional, calculate_delta) is modelled WITH rust_decimal's rounding "
+    "(decMul: exact when the product is a Decimal, otherwise half-to-even at the largest scale <= 28 whose mantissa fits 96 bits, None / panic "
+    "when scale 0 does not fit); that rounding model is hand-written from rust_decimal 1.43 ops/mul.rs + ops/common.rs (not translated) and is "
+    "tied by correspondence over the whole Decimal range. The `fits`-parametric theorems are about exact arithmetic, in which `fits` decides "
+    "only overflow of the exact product: they speak about the code under the explicit hypothesis decExact of every intermediate product. "
+    "checked_sub / checked_div of calculate_abs_percent_difference stay exact in the model (their rounding is not modelled): operands of apd "
+    "are small or integers / powers of ten, and quotients are compared to 1e-18",
+    "arguments of the arithmetic ops are Decimals (<= 28 fractional digits, mantissa < 2^96); the model driver answers bad-op to anything else "
+    "(the harness's str::parse::<Decimal> would round it)",
     "calculate_abs_percent_difference is specified (oracle) for a positive reference value `other` (prices) and for other = 0 (None); for a "
     "negative reference the code returns a NEGATIVE number (|current-other| / other): modelled as the code behaves and compared impl-vs-model only",
-    "CheckHigherThan<T> is exercised for T = Decimal, i64 and f64 (NaN + multiples of 1/4); PartialOrd::le is a parameter of the model",
-    "calculate_delta's unchecked Decimal multiplications panic on overflow; the model reports `panic` for the same inputs; the oracle is silent there",
-    "DefaultRiskManager is exercised with State = u64 and indexed order requests; the request and state types are parameters of the model",
+    "CheckHigherThan<T> is exercised for T = Decimal, i64 and f64 (NaN, +-inf, -0.0 + multiples of 1/4); PartialOrd::le is a parameter of the model; "
+    "the f64 model identifies -0.0 with 0.0 (`<=` does not distinguish them and the Display text of an f64 payload is not observed) and has no "
+    "subnormal / precision phenomena (finite values are exact rationals)",
+    "calculate_delta's unchecked Decimal multiplications panic on overflow; the model reports `panic` for the same inputs; the oracle says `panic` "
+    "only where a product of exactly known operands is >= 2^96 and is silent on the other panics",
+    "DefaultRiskManager is exercised with State = u64 and indexed order requests; the request and state types are parameters of the model; "
+    "DefaultRiskManager::check is outside the translated subset: tied to its one-line model by sampling only",
     "serde / Ord / Hash derives of the wrapper types are not modelled",
 ]
 SOURCE_FILES = ["barter/src/risk/mod.rs", "barter/src/risk/check/mod.rs", "barter/src/risk/check/util.rs",
@@ -45,16 +61,37 @@ def signature(ops, k, key, impl_line, spec_line):
 CLAIM = False
 TECHNIQUE = ("Lean 4: function-for-function model of barter::risk (wrappers, DefaultRiskManager, CheckHigherThan, util) with the Decimal range "
              "and PartialOrd::le as parameters; refinement to a specification written from the doc comments; correspondence with the real functions")
-LEVEL_TEXT = ("Sub-check of C03. Lean theorems (lean/BarterModel/Props/C03R.lean), for all inputs: CheckHigherThan passes exactly when input <= limit "
-              "(equal values pass; failure carries limit and input unchanged; monotone in input and limit; two limits = their minimum; NaN never passes); "
-              "calculate_quote_notional is quantity x price x contract_size whenever it returns a value, returns one whenever no product overflows, and "
-              "None only on overflow; per instrument kind (spot multiplier 1); calculate_abs_percent_difference equals |current-other|/|other| for a "
-              "positive reference, is >= 0, 0 iff equal, symmetric in the sign of the deviation, scale invariant, None for a zero reference, and is the "
-              "NEGATED documented value for a negative reference; calculate_delta = +/- delta x size x quantity, Sell = -Buy, additive in quantity, sign "
-              "and magnitude bounds; DefaultRiskManager approves every request, in order, with multiplicity, refuses nothing, independent of state, and "
-              "satisfies the conservation contract of RiskManager (approved ++ refused is a permutation of the input; also proved for every per-request "
-              "verdict, the shape the C03 engine model assumes, of which DefaultRiskManager is the instance `never refuse`); composed: a max-notional check "
-              "refuses exactly q*p*cs > limit, a max-deviation check accepts exactly other*(1-limit) <= current <= other*(1+limit). The model is tied to the code by running the same ops through the real functions.")
+LEVEL_TEXT = ("Sub-check of C03. Lean theorems (lean/BarterModel/Props/C03R.lean). CheckHigherThan, for every checked type and PartialOrd::le: passes exactly when "
+              "input <= limit (check_ok_iff / check_error_iff: failure carries limit and input unchanged; equal values pass; monotone in input and limit; two limits = "
+              "their minimum; NaN never passes, +inf limit passes all but NaN). calculate_quote_notional and calculate_delta are modelled twice. (1) Over rust_decimal's "
+              "multiplication WITH its rounding (notionalDec / deltaDec, what the driver runs): on the explicit exactness domain - every intermediate product in the "
+              "code's order (q*p then (q*p)*cs; q*cs then d*(q*cs)) exactly representable as a Decimal, decExact; in digits: scales add up to <= 28 and mantissa products "
+              "< 2^96 - the code returns exactly quantity x price x contract_size, resp. +/- delta x size x quantity (notional_exact_of_no_rounding, _of_digits, "
+              "delta_exact_of_no_rounding), is positive / additive in quantity / signed as documented there (notional_pos, notional_add_quantity, delta_sign, "
+              "delta_linear_instrument); unconditionally: None / panic only when the exact product of the actually stored operands exceeds 2^96-1 and always when it "
+              "reaches 2^96 (notional_none_only_on_overflow, delta_panics_only_on_overflow, mul_overflow_bounds), results are Decimals, rounding error <= half a unit of "
+              "the last place (mul_rounding_error), Sell = -Buy, q and p commute, zero quantity gives 0; OFF the domain the code differs from the exact product, stated as "
+              "witnesses: MAX x 0.5 x 2 is None although every exact product fits (notional_rounds_then_overflows), 1e-28 x 1e-28 x 1 is 0 "
+              "(notional_underflows_to_zero, delta_underflows_to_zero), 79228162514264337593543950335.1 is rounded INTO range (notional_rounds_into_range), ties go to even. "
+              "(2) Over exact arithmetic with an arbitrary predicate `fits` on the exact result (notional_sound / _complete / _none_iff, delta_panics_iff, "
+              "notional_small_multiplier, max_notional_check): true of that model for every `fits`; `fits` decides only overflow of the exact product, and these are "
+              "statements about the code only under the exactness hypothesis (then the two models coincide). calculate_abs_percent_difference (exact arithmetic; "
+              "sub / div rounding not modelled): equals |current-other|/|other| for a positive reference and is then >= 0 (apd_refines_spec, apd_sound_pos), None "
+              "for a zero reference, the NEGATED documented value for a negative reference (apd_negative_reference), 0 iff equal, symmetric in the sign of the "
+              "deviation, scale invariant for a POSITIVE factor (apd_scale_invariant; fails at k = -1: apd_scale_invariant_fails_negative), price_band_check. "
+              "Theorems named spec..._... are laws of the documented SPEC function only (they do not mention the code); each has the code-side statement named next "
+              "to it. DefaultRiskManager (model `map RiskApproved::new`, tied by sampling only): approves every request in order with multiplicity "
+              "(default_refines_spec, default_approves_in_order, default_multiplicity, default_append) and satisfies the conservation contract of RiskManager "
+              "(default_conserves, conserves_perm; verdict_conserves for every per-request verdict). Link with C03, inside the models: for any risk-manager output "
+              "that is the per-request split by a verdict `refuse`, Engine.generateAlgoOrders at that verdict IS the engine step fed with that output "
+              "(engine_step_of_risk_output; engine_step_with_default_risk_manager for `never refuse`); not stated: that the Rust engine routes RiskManager::check's "
+              "iterators this way (that is C03's engine model). The model is tied to the code by running the same ops through the real functions.")
 LEVEL_NOTE = ("Trusted: Lean kernel (axioms propext/Classical.choice/Quot.sound only); the hand-written model tied by sampled correspondence; harness and "
-              "driver. Decimal rounding not modelled; overflow modelled as |exact result| > 2^96-1. "
-              "Additionally tied by translation: the wrappers' new / into_item, CheckHigherThan::{new, check} (for every PartialOrd::le) and the three util.rs helpers are regenerated from the current source on every run by tools/rust2lean_sm.py (Generated/Machines2.lean) and proved equal to the model (kernels_agree_with_source; overflow-free instance, and value-for-value for every representability predicate); the translator and its prelude are trusted for that tie.")
+              "driver. Decimal multiplication IS modelled with rounding (full model of rust_decimal's mul as a function of the exact product: half-to-even at the "
+              "largest scale whose mantissa fits 96 bits; validated on the harness over the whole Decimal range, 140k random edge products without a difference, "
+              "and on every run by the 15 % edge share of the generator and corpus/C03R/edge.ops); rounding of checked_sub / checked_div is not modelled. "
+              "Definitional / bookkeeping statements (rfl, not results): approved_into_item_new, approved_new_into_item, refused_new_fields, default_refuses_nothing, "
+              "default_state_independent, default_kinds_independent, check_name; check_f64_refines_spec is near-definitional (specCheckF64 re-spells f64's <= on the "
+              "extended line). default_is_never_refuse compares the model of DefaultRiskManager::check with the four filter expressions written out; "
+              "engine_default_risk_refuses_nothing is a fact about the engine model at a constant verdict. "
+              "Additionally tied by translation: the wrappers' new / into_item, CheckHigherThan::{new, check} (for every PartialOrd::le) and the three util.rs helpers are regenerated from the current source on every run by tools/rust2lean_sm.py (Generated/Machines2.lean) and proved equal to the EXACT-arithmetic model (kernels_agree_with_source; overflow-free instance, and value-for-value for every predicate `fits`); the translator and its prelude are trusted for that tie; the rounding model decMul is outside it (correspondence only).")
